@@ -108,6 +108,55 @@ def run_isolated(mod, case, choices):
         return None, "isolated run returned garbage: %r" % (e,), []
 
 
+_SNAP = {"taken": False, "items": []}
+
+
+def hermetic_reset():
+    """One interpreter serves many simulated servers in a row.  Mutable containers bound at class or module level in gunicorn
+    (state a real server would get fresh with every process) are put back to what they were right after import, so that nothing a run
+    leaves behind can colour the next one - a violation must come from the history inside its own run, and then it reproduces."""
+    import copy
+    snap = _SNAP
+    if not snap["taken"]:
+        items = []
+        for name, m in sorted(sys.modules.items()):
+            if m is None or not (name == "gunicorn" or name.startswith("gunicorn.")):
+                continue
+            holders = [m] + [c for c in vars(m).values() if isinstance(c, type) and getattr(c, "__module__", None) == name]
+            for h in holders:
+                for an, av in list(vars(h).items()):
+                    if an.startswith("__") or not isinstance(av, (dict, list, set, bytearray)):
+                        continue
+                    try:
+                        items.append((h, an, av, copy.deepcopy(av)))
+                    except Exception:
+                        pass
+        snap["items"] = items
+        snap["taken"] = True
+        return 0
+    n = 0
+    for h, an, obj, content in snap["items"]:
+        try:
+            cur = vars(h).get(an)
+            if cur is obj and obj == content:
+                continue
+            n += 1
+            fresh = copy.deepcopy(content)
+            if isinstance(obj, dict):
+                obj.clear()
+                obj.update(fresh)
+            elif isinstance(obj, set):
+                obj.clear()
+                obj.update(fresh)
+            else:
+                obj[:] = fresh
+            if cur is not obj:
+                setattr(h, an, obj)
+        except Exception:
+            pass
+    return n
+
+
 def run_any(mod, case, choices):
     if getattr(mod, "ISOLATE", False):
         res, err, log = run_isolated(mod, case, choices)
@@ -128,9 +177,13 @@ def _batch(modname, tier, seed, start, count):
     out = {"n": 0, "shapes": set(), "states": set(), "faults": Counter(), "probes": Counter(),
            "sim_s": 0.0, "steps": 0, "nontrivial": 0, "viol": [], "errors": [], "digests": {},
            "samples": []}
+    isolate = getattr(mod, "ISOLATE", False)
     for index in range(start, start + count):
         case, s = case_for(mod, seed, index, tier)
         ch = Choices(seed=s ^ 0x5DEECE66D)
+        if not isolate:
+            if hermetic_reset():
+                out["probes"]["class_or_module_state_reset_between_runs"] += 1
         res, err = run_any(mod, case, ch)
         out["n"] += 1
         if err is not None:
@@ -175,7 +228,10 @@ def match_known(known, key):
 
 
 def _reproduces(mod, case, choices, key):
-    res, err = run_any(mod, case, Choices(replay=choices))
+    # always in a forked child of this (main) process, which itself never runs a case: what reproduces here reproduces from the state
+    # right after import, independent of whatever an earlier run left behind in a pool process
+    ch = Choices(replay=choices)
+    res, err, log = run_isolated(mod, case, ch)
     if res is None:
         return None
     for k, m in res.violations:
@@ -406,11 +462,19 @@ def main_check(mod, tier, seed, runs=None, budget=None, jobs=None):
         if new_keys > 8:
             viol_lines.append("VIOLATION property=%s replay=- (key=%s, not minimised: too many distinct keys)" % (mod.ID, key))
             continue
-        v = min(vs, key=lambda x: (len(json.dumps(x["case"], default=repr)), len(x["choices"])))
-        case, ch, ok = minimise(mod, v["case"], v["choices"], key)
+        # smallest first; a violation that does not reproduce in a fresh process (e.g. interpreter state carried over from an earlier run
+        # of the same batch) is tried again with the next candidates of the same key before it is written off as a harness error
+        cands = sorted(vs, key=lambda x: (len(json.dumps(x["case"], default=repr)), len(x["choices"])))[:60]
+        ok = False
+        for v in cands:
+            if _reproduces(mod, v["case"], v["choices"], key) is None:
+                continue
+            case, ch, ok = minimise(mod, v["case"], v["choices"], key)
+            if ok:
+                break
         if not ok:
-            harness_errors.append("violation key=%s (run %d) did not reproduce in-process; not reported"
-                                  % (key, v["index"]))
+            harness_errors.append("violation key=%s (run %d and %d more of that key) did not reproduce in-process; not reported"
+                                  % (key, cands[0]["index"], len(cands) - 1))
             continue
         got = _reproduces(mod, case, ch, key)
         res, msg = got
